@@ -232,3 +232,28 @@ def gen_call_case(rng):
             lines.append("thread-result")
     lines += ["step 1000", "thread-result", "step 1000", "thread-result"]
     return lines
+
+
+def gen_reset_case(rng):
+    """C13: a sync/timer program run under a random schedule with director.Reset() or a recompile of the
+    same script injected at a frame / host-call boundary, after which the script is compiled again and run"""
+    prog = gen_sync_prog(rng) if rng.random() < 0.7 else gen_timer_prog(rng)
+    base = gen_case(rng, prog)
+    body = base[2:-3]
+    cut = rng.randint(1, len(body)) if body else 0
+    inject = rng.choice(["reset", "recompile", "recompile-other"])
+    lines = base[:2] + body[:cut]
+    if inject == "reset":
+        lines += ["reset-director", script_line(prog)]
+    elif inject == "recompile":
+        lines += [script_line(prog)]
+    else:
+        prog2 = gen_timer_prog(rng)
+        prog = prog2
+        lines += [script_line(prog2)]
+    # run again "as if new": objects spawned earlier are still there, so only call non-setup labels
+    for _ in range(rng.randint(1, 3)):
+        lines.append("call m t%d" % rng.randrange(1 if len(prog) > 1 else 0, len(prog)))
+        lines.append("step %d" % rng.choice(STEPS))
+    lines += ["step 1000", "step 1000", "thread-result"]
+    return lines
